@@ -182,13 +182,36 @@ def fixed():
     return out
 
 
+KNOWN_PTR = "deprecated-ptr-null-test-on-out-of-bounds-pointer"
+
+
+def ptr_family():
+    """konst::ptr::is_null / ptr::nonnull::new (safe const fns that transmute the pointer to Option<NonNull<T>>) on pointers
+    into, one past and beyond a constant allocation.  4th element: the known-finding signature when the pointer is beyond
+    one-past-the-end (the const evaluator cannot decide null-ness there and reports the transmute as an invalid value)."""
+    out = []
+    for n in (1, 4):
+        arr = "[" + ", ".join(str(i + 1) for i in range(n)) + "]"
+        for off in (0, n - 1, n, n + 1, n + 100, "usize::MAX", "(isize::MAX as usize)"):
+            oob = not isinstance(off, int) or off > n
+            base = "{ const A: &[u8; %d] = &%s; A.as_ptr().wrapping_add(%s) }" % (n, arr, off)
+            tag = KNOWN_PTR if oob else None
+            out.append(("bool", "{ #[allow(deprecated)] let r = konst::ptr::is_null(%s); r }" % base, True, tag))
+            out.append(("bool", "{ #[allow(deprecated)] let r = konst::ptr::nonnull::new(%s as *mut u8); r.is_none() }" % base, True, tag))
+    out.append(("bool", "{ #[allow(deprecated)] let r = konst::ptr::is_null(core::ptr::null::<u64>()); r }", True, None))
+    out.append(("bool", "{ #[allow(deprecated)] let r = konst::ptr::nonnull::new(core::ptr::null_mut::<u64>()); r.is_none() }", True, None))
+    out.append(("bool", "{ #[allow(deprecated)] let r = konst::ptr::is_null(&100u32); r }", True, None))
+    out.append(("bool", "{ #[allow(deprecated)] let r = konst::ptr::is_null(\"abc\" as *const str); r }", True, None))
+    return out
+
+
 def block(i, g):
-    ty, expr, nt = g
+    ty, expr, nt = g[:3]
     return "    { const K: %s = %s; let r: %s = %s; if K != r { println!(\"FAIL %d const={:?} runtime={:?}\", K, r); } }" % (ty, expr, ty, expr, i)
 
 
 def single(g):
-    ty, expr, nt = g
+    ty, expr, nt = g[:3]
     return "#![allow(unused)]\npub const K: %s = %s;\n" % (ty, expr), "#![allow(unused)]\npub fn r() { let _r: %s = %s; }\n" % (ty, expr)
 
 
@@ -200,8 +223,15 @@ def run(prop, tier, seed, out, timeout, **kw):
     violations = []
     per = 600
     evaluations = 0
-    for b in range(0, len(gens), per):
-        chunk = gens[b:b + per]
+    known = {s: d for s, d in driver.load_known(prop)}
+    known_hits = 0
+    chunks = [gens[b:b + per] for b in range(0, len(gens), per)]
+    # the pointer family goes last, in a chunk of its own (while the listed finding exists its batch does not build and
+    # every constant of the chunk is compiled alone)
+    chunks.append(ptr_family())
+    gens = gens + chunks[-1]
+    for b, chunk in enumerate(chunks):
+        b = b * per
         src = "#![allow(unused, clippy::all)]\nfn main() {\n" + "\n".join(block(i, g) for i, g in enumerate(chunk)) + "\n    println!(\"DONE\");\n}\n"
         name = "c01_const%d" % (b // per)
         driver.write_bin(name, src)
@@ -220,8 +250,20 @@ def run(prop, tier, seed, out, timeout, **kw):
             if not rej:
                 return 2, "[gen_const] batch does not build although every constant builds alone:\n" + outp[-3000:]
             for i in rej:
+                tag = chunk[i][3] if len(chunk[i]) > 3 else None
+                if tag and tag in known and "E0080" in vf[i][1] and ("invalid tag" in vf[i][1] or "enum tag" in vf[i][1]):
+                    # listed finding: exactly this template, a pointer beyond one-past-the-end, rejected by the const
+                    # evaluator as an invalid Option<NonNull> tag; the run-time twin compiled (checked above)
+                    known_hits += 1
+                    continue
                 violations.append((chunk[i], "const evaluation failed (UB or panic in const context): " + vf[i][1].strip()[-700:], fulls[i]))
-            continue
+            # the constants that do evaluate still get their const-vs-run-time comparison
+            chunk = [g for i, g in enumerate(chunk) if i not in set(rej)]
+            src = "#![allow(unused, clippy::all)]\nfn main() {\n" + "\n".join(block(i, g) for i, g in enumerate(chunk)) + "\n    println!(\"DONE\");\n}\n"
+            driver.write_bin(name, src)
+            ok, outp = driver.build_bin(name)
+            if not ok:
+                return 2, "[gen_const] batch of the accepted constants does not build:\n" + outp[-3000:]
         rc, outr, dt = driver.run_bin(name, timeout=timeout)
         if rc != 0 or "DONE" not in outr:
             return 2, "[gen_const] run failed:\n" + outr[-3000:]
@@ -240,6 +282,8 @@ def run(prop, tier, seed, out, timeout, **kw):
         text.append("  const K: %s = %s;\n    %s" % (g[0], g[1], ev[:400]))
         text.append("VIOLATION property=%s replay=%s" % (prop, path))
         rc = 1
+    for sig, desc in known.items():
+        text.append("KNOWN-FINDING: property=%s %s (signature=%s, hits this run=%d)" % (prop, desc, sig, known_hits))
     wall = time.time() - t0
     text.append("[%s %s] programs=%d evaluations=%d distinct_nontrivial=%d violations=%d wall=%.1fs" % (prop, ENGINE, len(gens), evaluations, len(nontriv), len(violations), wall))
     driver.write_evidence(out, prop, ENGINE, tier, seed, wall, max(evaluations, 1), len(nontriv), RULE, samples, len(violations), programs=len(gens),
